@@ -8,6 +8,14 @@ func init() {
 	register("C04", "S-WRITES", ruleSWritesRT)
 	register("C04", "S-GLOBAL", ruleSGlobal)
 	register("C04", "S-POOL", ruleSPool)
+
+	register("C06", "T-RECOVER", ruleTRecover)
+	register("C06", "T-SHAPE", ruleTShape)
+	register("C06", "T-DEPTH", ruleTDepth)
+	register("C06", "T-LOOP", ruleTLoop)
+
+	register("C02", "S-RESET", ruleSReset)
+	register("C02", "S-PROP", ruleSProp)
 }
 
 func thorough(w *World, r *Report, prop, verif string, extra map[string]interface{}) {}
